@@ -106,6 +106,18 @@ def run(ck):
                 d_["tplname"] = J.vstr(ren[J.seg_text(d_["tplname"]["s"])])
             datas.append(d_)
         extra.append(J.make_case(0, tpls, "main", datas, globals_={"g": J.vstr("G&")}, tglobals=c.get("tglobals")))
+    # empty and whitespace-only templates are templates too: included, imported and rendered on their own
+    C_, N_ = J.Const, J.Name
+    for i, c in enumerate(jgen.module_cases(ck.seed * 31 + 312, 24 if quick else 400)):
+        tpls = dict(c["tpls"])
+        auto = tpls["main"]["auto"]
+        tpls["empty.html"] = J.template([], auto)
+        tpls["ws.txt"] = J.template([J.Text("  \n ")], auto)
+        body = list(tpls["main"]["body"]) + [J.Text("<"), J.Include(C_("empty.html")), J.Text("|"), J.Include(C_("ws.txt")), J.Text("|"),
+                                             J.Import(C_("empty.html"), "em"), J.Out(N_("em")), J.Out(J.Getattr(N_("em"), "zz")), J.Text(">")]
+        tpls["main"] = J.template(body, auto)
+        extra.append(J.make_case(0, tpls, ["main", "empty.html", "ws.txt"][i % 3] if i % 4 == 3 else "main", c["datas"],
+                                 globals_={"g": J.vstr("G&")}, tglobals=c.get("tglobals") if i % 4 != 3 else None))
     for c in extra:
         c["id"] = len(cases) + 1
         cases.append(c)
